@@ -45,7 +45,7 @@ pub fn prop() -> Prop {
         stub: &["transport", "store", "glue", "random source", "replaying / substituting adversary"],
         independent: &[],
         ref_sample: |_| 0,
-        required_probes: &["fillings_exhaustive", "sub_message", "sub_hiding_own", "sub_binding_other", "sub_add_participant", "sub_remove_participant", "sub_rename_participant", "sub_group_key", "sub_claimed_identifier", "wrong_nonces_refused", "missing_entry_refused", "identity_commitment_rejected"],
+        required_probes: &["fillings_exhaustive", "sub_message", "sub_hiding_own", "sub_binding_other", "sub_add_participant", "sub_remove_participant", "sub_rename_participant", "sub_group_key", "sub_claimed_identifier", "sub_R_preserving", "wrong_nonces_refused", "missing_entry_refused", "identity_commitment_rejected"],
         prepare: None,
     }
 }
@@ -262,6 +262,43 @@ fn exec_c<C: Suite>(scen: &Scenario) -> Exec {
         }
         if let Some(v) = all_reject(&mut rep, &what, &pkg, &a.shares, &a.pk) {
             return Exec::Violation(v, rep);
+        }
+    }
+    // a crafted substitution that keeps D + rho*E (hence the group commitment and the challenge) unchanged under the OLD
+    // binding factor: it is rejected only because the binding factors cover every commitment of every signer.
+    // (`internals` is used to CONSTRUCT the adversarial input; the verdict is accept / reject through the public API.)
+    {
+        let npk = C::normalised_pk(a.pk.clone());
+        if let Ok(bfl) = frost::compute_binding_factor_list(&a.package, npk.verifying_key(), &[]) {
+            let mut targets = vec![0usize, k - 1];
+            if k >= 3 {
+                targets.push(k / 2);
+            }
+            targets.dedup();
+            for who in targets {
+                let target = ids[who];
+                let Some(rho) = bfl.get(&target).and_then(|b| sc_from_bytes::<C>(&b.serialize())) else { continue };
+                let old = a.package.signing_commitments()[&target];
+                let d = el_from_bytes::<C>(&old.hiding().serialize().unwrap_or_default());
+                let e = el_from_bytes::<C>(&old.binding().serialize().unwrap_or_default());
+                let (Some(d), Some(e)) = (d, e) else { continue };
+                let shift = sc_random_nonzero::<C>(&mut sp);
+                let e2 = e + base::<C>(shift);
+                let d2 = d - base::<C>(rho * shift);
+                let (Some(eb), Some(db)) = (el_bytes::<C>(&e2), el_bytes::<C>(&d2)) else { continue };
+                let (Ok(h2), Ok(b2)) = (NonceCommitment::<C>::deserialize(&db), NonceCommitment::<C>::deserialize(&eb)) else { continue };
+                let mut cm = a.package.signing_commitments().clone();
+                cm.insert(target, SigningCommitments::<C>::new(h2, b2));
+                let pkg = SigningPackage::<C>::new(cm, a.package.message());
+                let what = format!("commitments of signer #{who} of {k} replaced by (D - rho*s*G, E + s*G), which preserves D + rho*E under the old binding factor");
+                rep.probe("sub_R_preserving");
+                if let Some(v) = share_check(&mut rep, &what, &pkg, &vk, &ids) {
+                    return Exec::Violation(v, rep);
+                }
+                if let Some(v) = all_reject(&mut rep, &what, &pkg, &a.shares, &a.pk) {
+                    return Exec::Violation(v, rep);
+                }
+            }
         }
     }
     // participant set: add / remove / rename
